@@ -9,6 +9,7 @@ from __future__ import annotations
 
 import ast
 import builtins as _builtins
+import copy
 import keyword
 import re
 from dataclasses import dataclass, replace
@@ -114,6 +115,7 @@ class I:
 
 
 EITHER = ("either-str-or-int",)
+FACTS = "\x00facts"  # key of an abstract environment: the facts (variable, fact) established by the tests passed on this path
 
 
 @dataclass(frozen=True)
@@ -208,7 +210,7 @@ class CharInterp:
                 raise AnalysisError("E6: a case mapping produces a delimiter character")
         self.ALPHA = mk(i for i, c in enumerate(all_chars()) if c.isalpha())
         self.DIGIT = mk(i for i, c in enumerate(all_chars()) if c.isdigit())
-        self.stores: list[tuple[str, S, str, int]] = []  # (container, key, path condition, line)
+        self.stores: list[tuple[str, S, str, int, dict[str, Any]]] = []  # (container, key, path condition, line, variables on that path)
         self.TOP = S(self.t.ALL, self.t.ALL, True)
         # assumption (recorded in evidence): field_prefix matches [A-Za-z][A-Za-z0-9_]* (the user's own configuration)
         import string as _string
@@ -217,13 +219,17 @@ class CharInterp:
         self.paths: list[Path] = []
         self._depth = 0
         self.reserved: frozenset[str] | None = None
+        self._fstack: list[FuncInfo] = []            # functions being interpreted (innermost last)
+        self._desugared: dict[int, ast.stmt] = {}    # id(simple statement) -> equivalent `if` statement (or itself)
 
     # -- entry points -----------------------------------------------------
     def run_function(self, f: FuncInfo, args: dict[str, Any]) -> tuple[S | L | None, list[Path]]:
         """Interpret f with the given abstract arguments; returns (joined result, per-return-path results)."""
         self._depth += 1
         if self._depth > 12:
+            self._depth -= 1
             raise AnalysisError(f"E6: recursion too deep at {f.qual}")
+        self._fstack.append(f)
         try:
             env: dict[str, Any] = {}
             for p in f.params:
@@ -235,11 +241,11 @@ class CharInterp:
             for p, d in zip(pos[len(pos) - len(a.defaults):], a.defaults):
                 if p.arg not in env:
                     env[p.arg] = self.ev(d, env, f.module)
-            rets: list[tuple[Any, str, int]] = []
+            rets: list[tuple[Any, str, int, tuple]] = []
             self.block(f.node.body, env, f.module, rets, "")
             paths = []
             out: Any = None
-            for val, desc, line in rets:
+            for val, desc, line, _facts in rets:
                 if isinstance(val, S):
                     paths.append(Path(f.qual, desc or "fallthrough", val, line))
                     out = join_s(out, val) if isinstance(out, S) or out is None else out
@@ -247,9 +253,16 @@ class CharInterp:
                     out = val if out is None else self.join_any(out, val)
                 else:
                     out = val
+            if rets and all(isinstance(v, (bool, B)) for v, _, _, _ in rets):
+                # a predicate: it is true (false) when one of its return paths is taken and the returned condition is true (false)
+                # there - the facts of that path and of that condition hold; never "the value of the last return"
+                yes = [fx + (v.when_true if isinstance(v, B) else ()) for v, _, _, fx in rets if v is not False]
+                no = [fx + (v.when_false if isinstance(v, B) else ()) for v, _, _, fx in rets if v is not True]
+                out = True if not no else False if not yes else B(self._one_of(yes), self._one_of(no))
             return out, paths
         finally:
             self._depth -= 1
+            self._fstack.pop()
 
     # -- statements ---------------------------------------------------------
     def block(self, body: list[ast.stmt], env: dict[str, Any], m: Module, rets: list, cond: str) -> bool:
@@ -260,6 +273,10 @@ class CharInterp:
             return False
         keys = set().union(*[set(e) for e, _ in states])
         for k in keys:
+            if k == FACTS:
+                fs = [e.get(FACTS, ()) for e, _ in states]
+                env[k] = tuple(f for f in fs[0] if all(f in w for w in fs[1:]))
+                continue
             vals = [e[k] for e, _ in states if k in e]
             v = vals[0]
             for w in vals[1:]:
@@ -275,20 +292,23 @@ class CharInterp:
                 raise AnalysisError(f"E6: too many paths at {m.rel}:{st.lineno}")
             if isinstance(st, ast.Expr) and isinstance(st.value, ast.Constant):
                 continue  # docstring
+            # a conditional expression evaluated by a simple statement is a fork of the path, exactly like the `if`
+            # statement it abbreviates: `s[X if T else Y]` runs as `if T: s[X]` / `else: s[Y]` (expressions are pure here)
+            st = self._as_branch(st)
             nxt: list = []
             for env, cond in states:
                 if isinstance(st, ast.Assign) and len(st.targets) == 1 and isinstance(st.targets[0], ast.Name):
-                    env[st.targets[0].id] = self.ev(st.value, env, m)
+                    self._bind(env, st.targets[0].id, self.ev(st.value, env, m))
                     nxt.append((env, cond))
                 elif isinstance(st, ast.AnnAssign) and isinstance(st.target, ast.Name):
-                    env[st.target.id] = self.ev(st.value, env, m) if st.value is not None else None
+                    self._bind(env, st.target.id, self.ev(st.value, env, m) if st.value is not None else None)
                     nxt.append((env, cond))
                 elif isinstance(st, ast.Assign) and len(st.targets) == 1 and isinstance(st.targets[0], ast.Subscript) \
                         and isinstance(st.targets[0].value, ast.Name):
                     k = self.ev(st.targets[0].slice, env, m)
                     self.ev(st.value, env, m)
                     if isinstance(k, S):
-                        self.stores.append((st.targets[0].value.id, k, cond, st.lineno))
+                        self.stores.append((st.targets[0].value.id, k, cond, st.lineno, dict(env)))
                     nxt.append((env, cond))
                 elif isinstance(st, ast.Expr):
                     self.ev(st.value, env, m)
@@ -301,28 +321,26 @@ class CharInterp:
                     e2 = dict(env)
                     if isinstance(it, ast.Call) and dotted(it.func) == "enumerate" and isinstance(st.target, ast.Tuple) \
                             and len(st.target.elts) == 2 and all(isinstance(x, ast.Name) for x in st.target.elts):
-                        e2[st.target.elts[0].id] = I("nonneg")
+                        self._bind(e2, st.target.elts[0].id, I("nonneg"))
                         src = self.ev(it.args[0], env, m)
-                        e2[st.target.elts[1].id] = src.elem if isinstance(src, L) else EITHER
+                        self._bind(e2, st.target.elts[1].id, src.elem if isinstance(src, L) else EITHER)
                     elif isinstance(st.target, ast.Name):
                         src = self.ev(it, env, m)
-                        e2[st.target.id] = src.elem if isinstance(src, L) else EITHER
+                        self._bind(e2, st.target.id, src.elem if isinstance(src, L) else EITHER)
                     else:
                         raise AnalysisError(f"E6: unsupported for-loop at {m.rel}:{st.lineno}")
                     self._run(st.body, [(e2, cond)], m, rets)
                     nxt.append((env, cond))
                 elif isinstance(st, ast.Return):
-                    rets.append((self.ev(st.value, env, m), cond, st.lineno))
+                    rets.append((self.ev(st.value, env, m), cond, st.lineno, env.get(FACTS, ())))
                 elif isinstance(st, ast.If):
-                    b = self.ev(st.test, env, m)
+                    b = self.truth(st.test, env, m)
                     tc = (cond + " & " if cond else "") + ast.unparse(st.test)
                     fc = (cond + " & " if cond else "") + "not(" + ast.unparse(st.test) + ")"
                     if isinstance(b, bool):
                         arm = st.body if b else st.orelse
                         nxt.extend(self._run(arm, [(env, cond)], m, rets) if arm else [(env, cond)])
                         continue
-                    if not isinstance(b, B):
-                        b = B()
                     te, fe = dict(env), dict(env)
                     self.refine(te, b.when_true)
                     self.refine(fe, b.when_false)
@@ -332,6 +350,95 @@ class CharInterp:
                     raise AnalysisError(f"E6: unsupported statement in naming pipeline: {m.rel}:{st.lineno} {type(st).__name__}")
             states = nxt
         return states
+
+    # -- conditional expressions as path forks ----------------------------------
+    _SIMPLE = (ast.Assign, ast.AnnAssign, ast.Expr, ast.Return)
+    _OWN_SCOPE = (ast.Lambda, ast.ListComp, ast.SetComp, ast.DictComp, ast.GeneratorExp)
+
+    def _as_branch(self, st: ast.stmt) -> ast.stmt:
+        """The `if` statement equivalent to a simple statement that evaluates a conditional expression (outermost first;
+        the arms are split again when they are run). Conditional expressions inside a comprehension or lambda are evaluated
+        once per element and stay joins (`ev`). Any other statement is returned unchanged."""
+        if not isinstance(st, self._SIMPLE):
+            return st
+        got = self._desugared.get(id(st))
+        if got is not None:
+            return got
+        path = self._find_ifexp(st, [])
+        out: ast.stmt = st
+        if path is not None:
+            arms = []
+            test: ast.expr | None = None
+            for which in ("body", "orelse"):
+                c = copy.deepcopy(st)
+                parent: Any = None
+                cur: Any = c
+                for fld, idx in path:
+                    parent = cur
+                    cur = getattr(cur, fld) if idx is None else getattr(cur, fld)[idx]
+                test = cur.test
+                fld, idx = path[-1]
+                if idx is None:
+                    setattr(parent, fld, getattr(cur, which))
+                else:
+                    getattr(parent, fld)[idx] = getattr(cur, which)
+                arms.append(c)
+            out = ast.copy_location(ast.If(test=test, body=[arms[0]], orelse=[arms[1]]), st)
+        self._desugared[id(st)] = out  # (st belongs to the indexed module or to a cached arm: its id stays unique)
+        return out
+
+    def _find_ifexp(self, node: ast.AST, path: list) -> list | None:
+        for fld, val in ast.iter_fields(node):
+            items = [(None, val)] if isinstance(val, ast.AST) else \
+                [(i, v) for i, v in enumerate(val)] if isinstance(val, list) else []
+            for idx, ch in items:
+                if not isinstance(ch, ast.AST) or isinstance(ch, self._OWN_SCOPE):
+                    continue
+                p = path + [(fld, idx)]
+                if isinstance(ch, ast.IfExp):
+                    return p
+                r = self._find_ifexp(ch, p)
+                if r is not None:
+                    return r
+        return None
+
+    def _bind(self, env: dict[str, Any], name: str, val: Any) -> None:
+        """Assignment: remembered conditions that speak about the old value of `name` no longer hold for the new one."""
+        env[name] = val
+        if FACTS in env:
+            env[FACTS] = tuple(f for f in env[FACTS] if f[0] != name)
+        for k, v in list(env.items()):
+            if isinstance(v, B) and any(var == name for var, _ in (*v.when_true, *v.when_false)):
+                env[k] = B()
+
+    def truth(self, n: ast.expr, env: dict[str, Any], m: Module) -> Any:
+        """The expression as a condition: a definite bool, or B with the facts that hold when it is true / false."""
+        v = self.ev(n, env, m)
+        if isinstance(v, (bool, B)):
+            return v
+        if isinstance(v, S):  # truthiness of a string
+            if v.finite == frozenset({""}):
+                return False
+            if not v.empty:
+                return True
+        if isinstance(n, ast.Name) and (isinstance(v, S) or v == EITHER):
+            return B(((n.id, "nonempty"),), ())
+        return B()
+
+    @staticmethod
+    def _all_of(parts: list[tuple]) -> tuple:
+        return tuple(f for p in parts for f in p)
+
+    @staticmethod
+    def _one_of(parts: list[tuple]) -> tuple:
+        """Facts that hold when at least one of the alternatives holds: the facts common to all of them, and
+        membership in (reserved list | keywords) when every alternative says `reserved` or `keyword` of the same variable."""
+        out = tuple(f for f in parts[0] if all(f in p for p in parts[1:]))
+        kinds = ("reserved", "keyword", "reserved_or_keyword")
+        vars_ = {v for p in parts for (v, f) in p if f in kinds}
+        if len(vars_) == 1 and all(any(f in kinds for (_, f) in p) for p in parts):
+            out += ((next(iter(vars_)), "reserved_or_keyword"),)
+        return out
 
     def join_any(self, a: Any, b: Any) -> Any:
         if isinstance(a, S) and isinstance(b, S):
@@ -346,6 +453,8 @@ class CharInterp:
         raise AnalysisError("E6: join of incompatible abstract values")
 
     def refine(self, env: dict[str, Any], facts: tuple[tuple[str, str], ...]) -> None:
+        if facts:
+            env[FACTS] = env.get(FACTS, ()) + tuple(f for f in facts if f not in env.get(FACTS, ()))
         for var, fact in facts:
             v = env.get(var)
             if v is EITHER or v == EITHER:
@@ -430,16 +539,19 @@ class CharInterp:
                     raise AnalysisError(f"E6: unsupported f-string part {m.rel}:{n.lineno}")
             return out
         if isinstance(n, ast.IfExp):
-            a, b = self.ev(n.body, env, m), self.ev(n.orelse, env, m)
-            self.ev(n.test, env, m)
-            return self.join_any(a, b)
+            # (only reached where a path cannot fork: inside a comprehension / lambda / test - see _as_branch)
+            c = self.truth(n.test, env, m)
+            if isinstance(c, bool):
+                return self.ev(n.body if c else n.orelse, env, m)
+            te, fe = dict(env), dict(env)
+            self.refine(te, c.when_true)
+            self.refine(fe, c.when_false)
+            return self.join_any(self.ev(n.body, te, m), self.ev(n.orelse, fe, m))
         if isinstance(n, ast.UnaryOp) and isinstance(n.op, ast.Not):
-            b = self.ev(n.operand, env, m)
+            b = self.truth(n.operand, env, m)
             if isinstance(b, bool):
                 return not b
-            if isinstance(b, B):
-                return B(b.when_false, b.when_true)
-            return B()
+            return B(b.when_false, b.when_true)
         if isinstance(n, ast.Subscript):
             base = self.ev(n.value, env, m)
             if isinstance(base, S) and isinstance(n.slice, ast.Constant) and n.slice.value == 0 and isinstance(n.value, ast.Name):
@@ -453,70 +565,70 @@ class CharInterp:
                 return I({"neg": "nonneg", "nonneg": "any", "any": "any"}[v.sign])
             raise AnalysisError(f"E6: unsupported negation at {m.rel}:{n.lineno}")
         if isinstance(n, ast.BoolOp):
-            vals = [self.ev(v, env, m) for v in n.values]
-            if any(isinstance(v, bool) for v in vals):
-                if isinstance(n.op, ast.Or) and any(v is True for v in vals):
-                    return True
-                if isinstance(n.op, ast.And) and any(v is False for v in vals):
-                    return False
-                vals = [v for v in vals if not isinstance(v, bool)]
-                if not vals:
-                    return isinstance(n.op, ast.And)
-            bs = []
-            for node_, v in zip(n.values, vals):
-                if isinstance(v, B):
-                    bs.append(v)
-                elif isinstance(node_, ast.Name) and (isinstance(v, S) or v == EITHER):
-                    bs.append(B(((node_.id, "nonempty"),), ()))
-                else:
-                    bs.append(B())
-            if isinstance(n.op, ast.Or):
-                # false only when all are false
-                wf: tuple = ()
-                for b in bs:
-                    wf += b.when_false
-                wt0: tuple = ()
-                vars_ = {v_ for b in bs for (v_, f_) in b.when_true if f_ in ("reserved", "keyword")}
-                if len(vars_) == 1 and all(any(f_ in ("reserved", "keyword") for (_, f_) in b.when_true) for b in bs):
-                    wt0 = ((next(iter(vars_)), "reserved_or_keyword"),)
-                return B(wt0, wf)
-            wt: tuple = ()
-            for b in bs:
-                wt += b.when_true
-            return B(wt, ())
+            is_or = isinstance(n.op, ast.Or)
+            bs: list[B] = []
+            for v in n.values:
+                b = self.truth(v, env, m)
+                if isinstance(b, bool):
+                    if b == is_or:
+                        return b  # a definitely-true operand of `or` / definitely-false operand of `and` decides
+                    continue      # a neutral operand
+                bs.append(b)
+            if not bs:
+                return not is_or
+            if len(bs) == 1:
+                return bs[0]
+            # `or` is true when one operand is and false when all are false; `and` is its dual (De Morgan)
+            if is_or:
+                return B(self._one_of([b.when_true for b in bs]), self._all_of([b.when_false for b in bs]))
+            return B(self._all_of([b.when_true for b in bs]), self._one_of([b.when_false for b in bs]))
         if isinstance(n, ast.Compare) and len(n.ops) == 1 and isinstance(n.ops[0], (ast.Lt, ast.GtE)) \
                 and isinstance(n.left, ast.Name) and isinstance(n.comparators[0], ast.Constant) and n.comparators[0].value == 0:
             t_, f_ = ((n.left.id, "neg"),), ((n.left.id, "nonneg"),)
             return B(t_, f_) if isinstance(n.ops[0], ast.Lt) else B(f_, t_)
         if isinstance(n, ast.Compare):
-            if len(n.ops) == 1 and isinstance(n.ops[0], ast.In) and isinstance(n.left, ast.Name):
+            if len(n.ops) == 1 and isinstance(n.ops[0], (ast.In, ast.NotIn)) and isinstance(n.left, ast.Name):
                 rhs = dotted(n.comparators[0])
                 if rhs == "RESERVED_WORDS":
-                    return B(((n.left.id, "reserved"),), ((n.left.id, "not_reserved"),))
+                    t_, f_ = ((n.left.id, "reserved"),), ((n.left.id, "not_reserved"),)
+                    return B(t_, f_) if isinstance(n.ops[0], ast.In) else B(f_, t_)
             for c in [n.left, *n.comparators]:
                 self.ev(c, env, m)
             return B()
         if isinstance(n, ast.GeneratorExp) or isinstance(n, ast.ListComp):
-            if len(n.generators) != 1 or n.generators[0].ifs or not isinstance(n.generators[0].target, ast.Name):
+            if len(n.generators) != 1 or not isinstance(n.generators[0].target, ast.Name):
                 raise AnalysisError(f"E6: unsupported comprehension {m.rel}:{n.lineno}")
-            it = self.ev(n.generators[0].iter, env, m)
-            if isinstance(it, S):  # iterating characters of a string
+            gen = n.generators[0]
+            tv = gen.target.id
+
+            dropped = [False]  # some filter may reject an item
+
+            def element(x: Any) -> Any:
+                """the element expression for an item x that passes the filters (None: no item passes)"""
                 e2 = dict(env)
-                e2[n.generators[0].target.id] = S(it.any, it.any, False)
-                el = self.ev(n.elt, e2, m)
-                return ("iter", el)
+                self._bind(e2, tv, x)
+                for cnd in gen.ifs:
+                    c = self.truth(cnd, e2, m)
+                    if c is False:
+                        return None
+                    if isinstance(c, B):
+                        dropped[0] = True
+                        self.refine(e2, c.when_true)
+                return self.ev(n.elt, e2, m)
+
+            it = self.ev(gen.iter, env, m)
+            if isinstance(it, S):  # iterating characters of a string
+                return ("iter", element(S(it.any, it.any, False)))
             if not isinstance(it, L):
                 raise AnalysisError(f"E6: comprehension over non-list {m.rel}:{n.lineno}")
-            e2 = dict(env)
-            e2[n.generators[0].target.id] = it.elem
-            el = self.ev(n.elt, e2, m)
+            el = element(it.elem)
+            if el is None:
+                return L(S(0, 0, False), True)
             if not isinstance(el, S):
                 raise AnalysisError(f"E6: comprehension element not a string {m.rel}:{n.lineno}")
-            hd = None
-            if it.head is not None:
-                e3 = dict(env)
-                e3[n.generators[0].target.id] = it.head
-                hd = self.ev(n.elt, e3, m)
+            if dropped[0]:  # possibly empty, and the first survivor need not be the source's head
+                return L(el, True)
+            hd = element(it.head) if it.head is not None else None
             return L(el, it.maybe_empty, hd if isinstance(hd, S) else None)
         if isinstance(n, ast.Call):
             return self.call(n, env, m)
@@ -529,8 +641,8 @@ class CharInterp:
     def call(self, n: ast.Call, env: dict[str, Any], m: Module) -> Any:
         t = self.t
         fn = dotted(n.func)
-        r0 = self.ix.resolve(m, fn) if fn else None
-        is_repo_func = bool(r0 and r0[0] == "func")
+        callee = self._callee(fn, m)
+        is_repo_func = callee is not None
         # method calls on abstract strings
         if isinstance(n.func, ast.Attribute) and not is_repo_func and fn not in ("re.sub", "re.split", "re.findall", "str.__new__"):
             recv = self.ev(n.func.value, env, m)
@@ -649,19 +761,49 @@ class CharInterp:
                 return L(S(got, got, False, False, None, got & ~self.D, bool(got) and not (got & self.D)), maybe_empty, head)
             # re.split: pieces are substrings of the source (possibly empty)
             return L(S(src.any, src.any, True), False, None, src)
-        # a function of the analysed module
-        r = self.ix.resolve(m, fn) if fn else None
-        if r and r[0] == "func":
-            f: FuncInfo = r[1]
+        # a function / method / constructor of the analysed package: follow it (its return paths joined)
+        if callee is not None:
+            f, bound = callee
             args: dict[str, Any] = {}
-            for p, a in zip(f.params, n.args):
+            for p, a in zip(f.params[1:] if bound else f.params, n.args):
                 args[p.arg] = self.ev(a, env, m)
             for kw in n.keywords:
                 if kw.arg:
                     args[kw.arg] = self.ev(kw.value, env, m)
             out, _ = self.run_function(f, args)
+            if isinstance(out, B):
+                # the facts of a predicate helper speak about its parameters: restate them for the caller's variables that were
+                # passed (plain names, parameters the helper never rebinds); anything else is dropped
+                stored = {x.id for x in ast.walk(f.node) if isinstance(x, ast.Name) and isinstance(x.ctx, ast.Store)}
+                ren = {p.arg: a.id for p, a in zip(f.params[1:] if bound else f.params, n.args) if isinstance(a, ast.Name)}
+                ren.update({kw.arg: kw.value.id for kw in n.keywords if kw.arg and isinstance(kw.value, ast.Name)})
+                ren = {p_: a_ for p_, a_ in ren.items() if p_ not in stored}
+                out = B(tuple((ren[v], fact) for v, fact in out.when_true if v in ren),
+                        tuple((ren[v], fact) for v, fact in out.when_false if v in ren))
             return out
         raise AnalysisError(f"E6: unsupported call {fn} at {m.rel}:{n.lineno}")
+
+    def _callee(self, fn: str | None, m: Module) -> tuple[FuncInfo, bool] | None:
+        """The package function a call runs, and whether its first parameter is bound implicitly (cls / self):
+        a module-level function, `Class.method`, `Class(...)` (its __new__), or `cls.method` / `self.method` from inside a
+        method of the same class."""
+        if not fn:
+            return None
+        r = self.ix.resolve(m, fn)
+        if r and r[0] == "func":
+            f: FuncInfo = r[1]
+            return f, (f.cls is not None and f.kind == "classmethod")
+        if r and r[0] == "class":
+            new = self.ix.find_method(r[1], "__new__")
+            return (new, True) if new is not None else None
+        head, _, rest = fn.partition(".")
+        cur = self._fstack[-1] if self._fstack else None
+        if r is None and rest and "." not in rest and cur is not None and cur.cls is not None and cur.kind != "staticmethod" \
+                and cur.params and cur.params[0].arg == head:
+            meth = self.ix.find_method(cur.cls, rest)
+            if meth is not None:
+                return meth, meth.kind != "staticmethod"
+        return None
 
     def single_class_plus(self, pat: str) -> int | None:
         """`[class]+` or `[class]` -> the class as a bitset; None for any other pattern shape."""
